@@ -88,6 +88,16 @@ fn subpartition<'a, T: VecData<T> + 'a, C: Comparator<T>>(
     result
 }
 
+
+#[cfg(feature = "verif")]
+pub fn verif_subpartition_i64(partitioning: &[Premerge], left: &[i64], right: &[i64], desc: bool) -> Vec<Premerge> {
+    if desc {
+        subpartition::<i64, CmpGreaterThan>(partitioning, left, right)
+    } else {
+        subpartition::<i64, CmpLessThan>(partitioning, left, right)
+    }
+}
+
 #[cfg(test)]
 mod tests {
     use crate::engine::operators::merge_deduplicate_partitioned::merge_deduplicate_partitioned;
